@@ -785,6 +785,8 @@ def _gen_diff(g):
             kw[name] = len(ops)
             kind = ops[0]["kind"] if g.rng.random() < 0.6 else g.rng.choice(["int", "float", "complex"])
             ops.append(poly_of(g, tuple(pshape), maxexp=2, kind=kind))
+    if "prepend" in kw and g.rng.random() < 0.5:
+        kw["positional"] = True
     return {"operands": ops, "kw": kw}
 
 
@@ -795,6 +797,10 @@ def _diff_call(ns, ops, kw):
             extra[name] = ops[kw[name]]
     if "axis" in kw:
         extra["axis"] = kw["axis"]
+    if kw.get("positional") and "prepend" in extra:
+        # numpy's parameter order: diff(a, n, axis, prepend, append)
+        rest = [extra["append"]] if "append" in extra else []
+        return ns.diff(ops[0], kw["n"], extra.get("axis", -1), extra["prepend"], *rest)
     return ns.diff(ops[0], n=kw["n"], **extra)
 
 
